@@ -17,4 +17,6 @@ THEOREMS = [P + n for n in (
     "mirror_push_word", "mirror_push_uint", "mirror_new_filled_push_pop", "boot_flatten_reverse_merge", "boot_map_any_arity", "mirror_scanformat", "format_error_where_scan_raises",
     # session 4c
     "format_item_exact_or_error", "format_item_strict_test_appends_terminator",
+    # session 4d
+    "boot_some_all",
 )]
